@@ -38,7 +38,7 @@
  */
 #include "inverse_power_coulomb_bounding_potential.h" // Include declarations.
 
-#include <math.h> // For fabs, floor, fmod, pow, sqrt.
+#include <math.h> // For fabs, fmax, fmod, pow, round, sqrt.
 
 
 /** @brief Compute the space derivative of the inverse power coulomb bounding potential along the positive x direction
@@ -89,8 +89,12 @@ double displacement(double prefactor_product, double sx, double sy, double sz, d
     double potential_zero = potential(prefactor_product, 0.0, sy, sz);
     double potential_half_length = potential(prefactor_product, system_length_over_two, sy, sz);
     double potential_change_per_system_length = fabs(potential_zero - potential_half_length);
-    double displacement = floor(potential_change / potential_change_per_system_length) * system_length;
-    potential_change = fmod(potential_change, potential_change_per_system_length);
+    // Count the full system lengths consistently with the (exact) remainder of fmod. A separately rounded quotient
+    // can be one too large if the potential change lies just below a multiple of the change per system length.
+    double remaining_potential_change = fmod(potential_change, potential_change_per_system_length);
+    double displacement = (round((potential_change - remaining_potential_change) / potential_change_per_system_length)
+                           * system_length);
+    potential_change = remaining_potential_change;
 
     double new_norm;
     if (prefactor_product > 0.0) {
@@ -114,7 +118,8 @@ double displacement(double prefactor_product, double sx, double sy, double sz, d
         }
         // Compute how much active unit can travel uphill with the given potential change.
         new_norm = prefactor_product / (current_potential + potential_change);
-        displacement += (sx - sqrt(new_norm * new_norm - (sy * sy + sz * sz)));
+        // Rounding can make the argument of the square root slightly negative for tiny potential changes.
+        displacement += (sx - sqrt(fmax(0.0, new_norm * new_norm - (sy * sy + sz * sz))));
     } else {
         // Attractive interaction
         if (sx > 0.0) {
@@ -133,7 +138,7 @@ double displacement(double prefactor_product, double sx, double sy, double sz, d
             }
         }
         new_norm = prefactor_product / (current_potential + potential_change);
-        displacement += (sx + sqrt(new_norm * new_norm - (sy * sy + sz * sz)));
+        displacement += (sx + sqrt(fmax(0.0, new_norm * new_norm - (sy * sy + sz * sz))));
     }
     return displacement;
 }
